@@ -279,7 +279,7 @@ def coordinates(events, rng, how_many=None):
 def run_case(seed, root, params=None):
     params = params or {}
     rng = random.Random(seed)
-    backend = rng.choice(params.get('backends', ['make']))
+    backend = rng.choice(params.get('backends', ['make', 'ninja']))
     cfg = c08.make_config(rng, backend)
     cfg['seed'] = seed
     cfg['bufsize'] = rng.choice([256, 512, 1024, 4096, 8192])
@@ -448,7 +448,7 @@ def summarise(case):
     return {
         'seed': case['seed'],
         'violations': out_v,
-        'stats': stats,
+        'stats': dict(stats, **{'backend.' + case['proj'].backend: 1}),
         'nontrivial': n_nontrivial > 0,
         'shape': '',           # distinctness is per crash point: see below
         'shapes': sorted(shapes),
